@@ -229,7 +229,11 @@ PumpBody(t, fail) ==
             /\ UNCHANGED <<facade, spa, spaConn, spaOpen, epOpen, spaTasks, facTask, dying, nextEp, nextFac, found>>
        [] fr.f = "connIf" ->
             /\ running' = t
-            /\ IF descr # "some"
+            /\ IF descr = "none"
+               \* `assert spa_descriptors is not None`: a reset cleared the descriptors while the discovery's last
+               \* event was being delivered; the assertion error unwinds to the pump's handler
+               THEN todo' = [todo EXCEPT ![t] = Unwind(Tail(@))]
+               ELSE IF descr # "some"
                THEN Push(t, <<R("SPA_NOT_FOUND")>>)
                ELSE IF facade # 0 \/ nextEp > MaxEp
                     THEN Push(t, <<>>)            \* assert self._facade is None would fail / model bound reached
